@@ -72,7 +72,23 @@ def gen_case(streams, tier, avoid):
     return case
 
 
+_TMP = __import__("re").compile(r"\.tmp\.\d+\.[0-9a-f]+")
+
+
+def _norm_tmp(x):
+    """Temporary names carry the pid and a random part that differ between incarnations of a process."""
+    if isinstance(x, str):
+        return _TMP.sub(".tmp.N", x)
+    if isinstance(x, (list, tuple)):
+        return [_norm_tmp(y) for y in x]
+    return x
+
+
 def _fs_state(root):
+    return sorted(_norm_tmp(list(t)) for t in _fs_state_raw(root))
+
+
+def _fs_state_raw(root):
     items = []
     for dp, dns, fns in os.walk(root):
         dns.sort()
@@ -300,7 +316,7 @@ def _run(case, root):
                 v = sim.spawn(job(src_new, [ev]))
                 sim.run_alone(v, kill_at=i)
                 steps += sim.seq
-                if v.state != "killed" or v.parked_at != parked:
+                if v.state != "killed" or _norm_tmp(list(v.parked_at)) != _norm_tmp(list(parked)):
                     raise HarnessError(f"victim replay diverged at gate {i}: {v.state} {v.parked_at} vs {parked}")
             finally:
                 sim.close()
